@@ -1,6 +1,9 @@
 """C19 — advertised limits are honoured exactly."""
+import os
+import fscklib
 import seqlib
 import vlib
+from vlib import Break
 
 MODULE = "GoNfsd.Props.C19"
 
@@ -14,6 +17,18 @@ def run(ctx):
             seqlib.analyse(ctx, lines, tr, ok_drv, "C19",
                            relevant_ops={"fsinfo", "pathconf", "create", "mkdir", "symlink", "rename", "write", "setattr",
                                          "lookup", "remove", "rmdir", "read"})
+    if ok_go:
+        # the limits through the back door: CREATE / MKDIR / SYMLINK with an initial SIZE attribute at and beyond maxfilesize, on a server of its
+        # own — no object may come to exceed the announced maximum, and it must stay readable
+        it = os.path.join(ctx.scratch, "initattr.txt")
+        rc, err = ctx.harness(["initattr"], it)
+        if rc != 0:
+            ctx.breaks.append(Break("correspondence", "harness initattr failed to run", err[-2000:]))
+        else:
+            il = open(it).read().splitlines()
+            ctx.cov["creations_with_initial_size"] = len([l for l in il if l.startswith("initattr ")])
+            ctx.cov["evaluations"] += ctx.cov["creations_with_initial_size"]
+            fscklib.oracle_lines(ctx, il, "C19", "harness initattr: creating procedures with an initial size attribute of maxfilesize, maxfilesize+1, …, 2^64-1 on a fresh server; GETATTR and a READ near the end afterwards")
     vlib.finish(
         ctx, "proof",
         "theorems over the REGENERATED announced values (obtained by running FSINFO/PATHCONF of the current code): name_max, maxfilesize and wtmax are "
